@@ -110,6 +110,25 @@ func rtPrograms(c *Ctx, n int, opts GenOpts) []*rtProgram {
 	return out
 }
 
+// rtProgramsGenOnly: n generated programs (no corpus).
+func rtProgramsGenOnly(c *Ctx, n int, opts GenOpts) []*rtProgram {
+	var out []*rtProgram
+	rejected := 0
+	for i := 0; len(out) < n && i < 4*n+50; i++ {
+		src, st := GenProgram(c.Rng, opts)
+		p, err := compileProgram(fmt.Sprintf("genf%d", i), src, nil)
+		if err != nil {
+			rejected++
+			continue
+		}
+		p.Stats = st
+		out = append(out, p)
+	}
+	c.Res.Histogram["gen_rejected_by_compiler"] += rejected
+	c.Res.Histogram["programs"] += len(out)
+	return out
+}
+
 func countGenerated(ps []*rtProgram) int {
 	n := 0
 	for _, p := range ps {
